@@ -12,6 +12,9 @@ func (c *Conversation) generateNewDHKeyPair() error {
 func (c *Conversation) akeHasFinished() error {
 	c.keys.wipe()
 	c.keys = c.ake.keys
+	if c.ake.hasSSID {
+		c.ssid = c.ake.ssid
+	}
 	c.ake.wipe(false)
 
 	previousMsgState := c.msgState
@@ -183,7 +186,12 @@ func (s authStateAwaitingDHKey) receiveDHKeyMessage(c *Conversation, msg []byte)
 	c.ake.keys.setTheirCurrentDHPubKey(c.ake.theirPublicValue)
 	c.ake.keys.setOurCurrentDHKeys(c.ake.secretExponent, c.ake.ourPublicValue)
 
+	runningSentRevealSig := c.sentRevealSig
 	c.sentRevealSig = true
+	if c.msgState == encrypted {
+		// a session is running: it keeps its highlighted SSID half until the new exchange has completed
+		c.sentRevealSig = runningSentRevealSig
+	}
 
 	return authStateAwaitingSig{revealSigMsg: revealSigMsg}, revealSigMsg, nil
 }
@@ -260,6 +268,8 @@ func (s authStateAwaitingSig) receiveSigMessage(c *Conversation, msg []byte) (au
 
 	//gy was stored when we receive DH-Key
 	c.ake.keys.setTheirCurrentDHPubKey(c.ake.theirPublicValue)
+
+	c.sentRevealSig = true
 
 	return authStateNone{}, nil, c.akeHasFinished()
 }
